@@ -5,6 +5,8 @@
 // golang.org/x/crypto/cryptobyte readers run. Asserted: no panic, termination within the loop bound, at most n/2 URLs.
 //verif:pkg revocation/crl
 //verif:harness H_C18_parsedp
+// every loop of the value parser consumes at least one byte of the (at most der_len_max = 16 byte) buffer per iteration:
+//verif:terminates crl.parseCRLDistributionPoint 64
 //verif:harness H_C18_parsedp_roundtrip
 package crl
 
